@@ -38,6 +38,45 @@ ALL_FIXES = ('stop', 'skiptrace')
 HISTORIC = (('rawbucket', 'SMALL_IDS'), ('nobase', 'SMALL'))
 
 
+class SourceError(Exception):
+    """raised by a lazy target instead of yielding its next item"""
+
+
+class _Routable:
+    """an item that key functions can route (t % 2, t // 2) but whose == is hostile"""
+    def __init__(self, i):
+        self.i = i
+
+    def __mod__(self, m):
+        return self.i % m
+
+    def __floordiv__(self, m):
+        return self.i // m
+
+    __hash__ = object.__hash__
+
+
+class AnyEq(_Routable):
+    """equal to everything (like unittest.mock.ANY)"""
+    def __eq__(self, other):
+        return True
+
+    def __ne__(self, other):
+        return False
+
+    __hash__ = object.__hash__
+
+
+class StrictEq(_Routable):
+    """comparing it with a foreign object raises"""
+    def __eq__(self, other):
+        if type(other) is not StrictEq:
+            raise TypeError('StrictEq compared with %s' % type(other).__name__)
+        return self.i == other.i
+
+    __hash__ = object.__hash__
+
+
 # ---- abstract spec -> real spec ----------------------------------------------------------
 def _key_fn(kf, spelling, ub):
     """ub: None, or (unbox T-expression, unbox callable) when items are boxed;
@@ -184,6 +223,10 @@ class RealSpec:
             return x['i']
         if x['k'] == 'id':
             return id(self.objs[x['n'] - 1])
+        if x['k'] == 'any':
+            return AnyEq(x['i'])
+        if x['k'] == 'strict':
+            return StrictEq(x['i'])
         if x['k'] == 'str':
             return x['s']
         if x['k'] == 'tup':
@@ -194,6 +237,8 @@ class RealSpec:
     def proj(self, o, depth=0):
         if depth > 12:
             return {'k': 'opaque', 's': 'deep'}
+        if type(o) is AnyEq or type(o) is StrictEq:      # first: nothing below may use == on them
+            return {'k': 'any' if type(o) is AnyEq else 'strict', 'i': o.i}
         if o is None:
             return {'k': 'none'}
         if o is SKIP or o is STOP:
@@ -237,6 +282,11 @@ def containers(o, acc=None):
 def make_target(rs, items, variant, boxed=None):
     """real target for an item sequence, built through codec.Heap so that it can be snapshotted"""
     boxed = rs.boxed
+    if any(x['k'] in ('any', 'strict') for x in items):
+        # objects with a hostile __eq__ are not codec values: a plain target, no snapshot
+        tgt = [rs.item(x) for x in items]
+        tgt = tuple(tgt) if variant == 'tuple' else tgt
+        return None, None, (iter(tgt) if variant == 'gen' else tgt)
     cells, refs = [], []
     for x in items:
         t = rs.item(x)
@@ -434,7 +484,11 @@ def replay_flat(levels, items, ev, out):
                 both = None
                 o12 = [{'k': 'exc', 's': codec.exc_class_name(e)}] * 2
             else:
-                o12 = [rs.proj(b) for b in both]
+                if type(both) is not list or len(both) != 2:       # the outer spec lost a result
+                    o12 = [{'k': 'opaque', 's': 'outer result %s' % json.dumps(rs.proj(both))}] * 2
+                    both = None
+                else:
+                    o12 = [rs.proj(b) for b in both]
             for k in (0, 1):
                 _check_result(out, levels, items, ev, rs, 'glom([t, t], %s)[%d]' % (form, k),
                               both[k] if both else None, o12[k])
@@ -445,12 +499,14 @@ def replay_flat(levels, items, ev, out):
 
 
 def play_hist(rs, hist):
-    """Perform a history of new / feed / fin actions on the real spec object: every evaluation
-    is a glom() call on a generator target; a nested `new` runs the inner glom() call while
-    the outer one waits for its next item.  -> {evaluation number: (result, projection)}"""
+    """Perform a history of new / feed / fault / fin actions on the real spec object: every
+    evaluation is a glom() call on a generator target (pulled lazily); a nested `new` runs the inner
+    glom() call while the outer one waits for its next item; `fault` makes the generator raise
+    instead of yielding.  -> {evaluation number: (result, projection)}"""
     results = {}
     pos = [0]
     count = [0]
+    faulted = set()
 
     def run_eval():
         count[0] += 1
@@ -465,13 +521,22 @@ def play_hist(rs, hist):
                     yield rs.feed(a['x'])
                 elif a['a'] == 'new':
                     run_eval()
+                elif a['a'] == 'fault':
+                    pos[0] += 1
+                    faulted.add(e)
+                    raise SourceError('the source fails here')
                 else:
                     pos[0] += 1
                     return
         gobj = gen()
         results[e] = observe(rs, lambda: glom.glom(gobj, rs.g))
-        for _ in gobj:      # the library stopped early: the remaining events still happen
+        try:
+            for _ in gobj:      # the library stopped early: the remaining events still happen
+                pass
+        except SourceError:
             pass
+        if e in faulted and pos[0] < len(hist) and hist[pos[0]]['a'] == 'fin':
+            pos[0] += 1         # the model finishes a failed evaluation explicitly
     while pos[0] < len(hist):
         if hist[pos[0]]['a'] != 'new':
             raise vlib.MachineryError('history does not start an evaluation at %d: %r' % (pos[0], hist))
@@ -504,7 +569,7 @@ def worker(states):
         if not evals:
             continue
         out.states += 1
-        flat = len(evals) == 1 and all(a['a'] != 'fin' for a in hist)
+        flat = len(evals) == 1 and all(a['a'] not in ('fin', 'fault') for a in hist)
         nbad = len(out.bad)
         if flat:
             ev = evals[0]
@@ -549,14 +614,20 @@ WORDS = ['a', 'ab', 'b', 'ba']
 def rand_spec(rng):
     """-> (levels, item kind)"""
     nk = rng.choice([0, 1, 1, 2, 2, 3])
-    kind = rng.choice(['int', 'int', 'int', 'int', 'str', 'tup'])
+    kind = rng.choice(['int', 'int', 'int', 'int', 'int', 'str', 'tup', 'hostile'])
     levels = []
     r = rng.random()
     if r < 0.25:
         levels.append({'op': 'limit', 'n': rng.choice([0, 1, 2, 3, 5, 8])})
-    levels += [{'op': 'dict', 'key': rng.choice(KFS if kind == 'int' else ORD_KFS)} for _ in range(nk)]
+    levels += [{'op': 'dict', 'key': rng.choice({'int': KFS, 'hostile': ['mod2', 'half', 'const']}.get(kind, ORD_KFS))}
+               for _ in range(nk)]
     r = rng.random()
-    if kind != 'int':
+    if kind == 'hostile':
+        leaf = rng.choice([{'op': 'list', 'agg': '', 'val': 'ident'}, {'op': 'list', 'agg': '', 'val': 'ident'},
+                           {'op': 'last', 'agg': '', 'val': 'ident'}, {'op': 'agg', 'agg': 'First', 'val': 'ident'},
+                           {'op': 'agg', 'agg': 'Count', 'val': 'ident'},
+                           {'op': 'agg', 'agg': 'Sample', 'val': 'ident', 'n': 20}])
+    elif kind != 'int':
         leaf = rng.choice([{'op': 'list', 'agg': '', 'val': 'ident'}, {'op': 'last', 'agg': '', 'val': 'ident'}] +
                           [{'op': 'agg', 'agg': a, 'val': 'ident'} for a in ('First', 'Max', 'Min', 'Max', 'Min', 'Count')] +
                           [{'op': 'agg', 'agg': 'Sample', 'val': 'ident', 'n': rng.choice([2, 20])}])
@@ -590,6 +661,8 @@ def rand_hist(rng, levels, max_items, nest, kind='int'):
     pool = [{'k': 'int', 'i': i} for i in range(-3, 8)]
     if kind == 'str':
         pool = [{'k': 'str', 's': w} for w in WORDS]
+    elif kind == 'hostile':
+        pool = [{'k': kk, 'i': i} for kk in ('any', 'strict') for i in range(4)]
     elif kind == 'tup':
         pool = [{'k': 'tup', 'items': [{'k': 'int', 'i': i}, {'k': 'str', 's': w}]} for i in (0, 1, 2) for w in WORDS]
     elif id_safe(levels) and rng.random() < 0.5:
@@ -598,6 +671,8 @@ def rand_hist(rng, levels, max_items, nest, kind='int'):
     if not nest:
         hist.append({'a': 'new'})
         hist += [{'a': 'feed', 'x': rng.choice(pool)} for _ in range(rng.randint(0, max_items))]
+        if rng.random() < 0.2:
+            hist.append({'a': 'fault'})         # the lazy source fails after these items
         return hist
     depth, evs = 0, 0
     for _ in range(rng.randint(4, 16)):
@@ -607,6 +682,8 @@ def rand_hist(rng, levels, max_items, nest, kind='int'):
             depth += 1
             evs += 1
         elif r < 0.35:
+            if rng.random() < 0.2:
+                hist.append({'a': 'fault'})
             hist.append({'a': 'fin'})
             depth -= 1
         else:
@@ -667,7 +744,7 @@ def tla_set(xs):
 def consts(**kw):
     base = dict(MaxKeyLevels=1, MaxItems=3, MaxTotal=3, ItemMax=2, NegItems=0, MaxEvals=1, MaxDepth=1, WithIds='FALSE',
                 KFs=tla_set(KFS), Aggs=tla_set(AGGS), VFs=tla_set(['ident', 'inc', 'x10', 'skip3']),
-                LimitNs='{99, 0, 2}', ItemKind='"int"', NestedLimitNs='{99}', SampleNs='{}', Fixes='{}',
+                LimitNs='{99, 0, 2}', ItemKind='"int"', NestedLimitNs='{99}', SampleNs='{}', WithFaults='FALSE', Fixes='{}',
                 Mutant='"none"')
     base.update(kw)
     return base
@@ -689,6 +766,11 @@ UNIVERSES = {
         ('constructs', consts(MaxKeyLevels=1, MaxItems=3, MaxTotal=3, ItemMax=2, NegItems=1, KFs=tla_set(['mod2', 'skip0']),
                               Aggs=tla_set(['First', 'Max', 'Sum']), VFs=tla_set(['ident', 'list2']), LimitNs='{99, 2}',
                               NestedLimitNs='{99, 1, 2}', SampleNs='{2}')),
+        ('lazy', consts(MaxKeyLevels=1, MaxItems=3, MaxTotal=3, ItemMax=1, KFs=tla_set(['mod2']),
+                        Aggs=tla_set(['First', 'Max', 'Count']), VFs=tla_set(['ident']), LimitNs='{99, 1, 2}',
+                        WithFaults='TRUE')),
+        ('hostile', consts(MaxKeyLevels=1, MaxItems=3, MaxTotal=3, ItemKind='"hostile"', KFs=tla_set(['mod2', 'const']),
+                           Aggs=tla_set(['First', 'Count']), VFs=tla_set(['ident']), LimitNs='{99, 2}', SampleNs='{3}')),
         ('limit0', consts(MaxKeyLevels=1, MaxItems=2, MaxTotal=2, ItemMax=1, KFs=tla_set(['mod2']), LimitNs='{0}')),
         ('ids', consts(MaxKeyLevels=2, MaxItems=3, MaxTotal=3, ItemMax=1, WithIds='TRUE', KFs=tla_set(['ident']),
                        Aggs=tla_set(['First', 'Count']), VFs=tla_set(['ident']), LimitNs='{99, 2}')),
@@ -700,7 +782,7 @@ UNIVERSES = {
         ('flat', consts(MaxKeyLevels=2, MaxItems=4, MaxTotal=4, ItemMax=2, NegItems=1, VFs=tla_set(['ident', 'inc', 'x10', 'skip3', 'inner']),
                         KFs=tla_set(['ident', 'mod2', 'skip0']),
                         LimitNs='{99, 3}')),
-        ('flat-long', consts(MaxKeyLevels=1, MaxItems=5, MaxTotal=5, ItemMax=3, NegItems=1, VFs=tla_set(['ident', 'inc', 'x10', 'skip3', 'inner']),
+        ('flat-long', consts(MaxKeyLevels=1, MaxItems=5, MaxTotal=5, ItemMax=2, NegItems=1, VFs=tla_set(['ident', 'inc', 'x10', 'skip3', 'inner']),
                              KFs=tla_set(['mod2', 'skip0']),
                              LimitNs='{99, 3}')),
         ('flat-deep', consts(MaxKeyLevels=3, MaxItems=4, MaxTotal=4, ItemMax=2, KFs=tla_set(['mod2', 'half', 'skipodd']),
@@ -708,17 +790,25 @@ UNIVERSES = {
                              LimitNs='{99, 3}')),
         ('ord-str', consts(MaxKeyLevels=2, MaxItems=4, MaxTotal=4, ItemKind='"str"', KFs=tla_set(ORD_KFS),
                            Aggs=tla_set(['First', 'Max', 'Min', 'Count']), VFs=tla_set(['ident']), LimitNs='{99, 2}',
-                           NestedLimitNs='{99, 1}', SampleNs='{2}')),
+                           SampleNs='{2}')),
         ('ord-tup', consts(MaxKeyLevels=2, MaxItems=4, MaxTotal=4, ItemKind='"tup"', KFs=tla_set(ORD_KFS),
                            Aggs=tla_set(['First', 'Max', 'Min', 'Count']), VFs=tla_set(['ident']), LimitNs='{99, 2}',
                            SampleNs='{2}')),
         ('constructs', consts(MaxKeyLevels=2, MaxItems=4, MaxTotal=4, ItemMax=2, NegItems=1, KFs=tla_set(['mod2', 'skip0']),
                               Aggs=tla_set(['First', 'Max', 'Sum', 'Flatten']), VFs=tla_set(['ident', 'list2']),
                               LimitNs='{99, 3}', NestedLimitNs='{99, 1, 2}', SampleNs='{2, 3}')),
+        ('lazy', consts(MaxKeyLevels=2, MaxItems=4, MaxTotal=4, ItemMax=1, KFs=tla_set(['mod2', 'skip0']),
+                        Aggs=tla_set(['First', 'Max', 'Count', 'Flatten']), VFs=tla_set(['ident']), LimitNs='{99, 0, 1, 2}',
+                        WithFaults='TRUE')),
+        ('lazy-nested', consts(MaxKeyLevels=1, MaxItems=2, MaxTotal=3, ItemMax=1, MaxEvals=2, MaxDepth=2, KFs=tla_set(['mod2']),
+                               Aggs=tla_set(['First', 'Max']), VFs=tla_set(['ident']), LimitNs='{99, 1}',
+                               WithFaults='TRUE')),
+        ('hostile', consts(MaxKeyLevels=2, MaxItems=4, MaxTotal=4, ItemKind='"hostile"', KFs=tla_set(['mod2', 'half', 'const']),
+                           Aggs=tla_set(['First', 'Count']), VFs=tla_set(['ident']), LimitNs='{99, 2}', SampleNs='{4}')),
         ('limit0', consts(MaxKeyLevels=2, MaxItems=2, MaxTotal=2, ItemMax=1, KFs=tla_set(['mod2', 'skip0']), LimitNs='{0}')),
         ('ids', consts(MaxKeyLevels=3, MaxItems=4, MaxTotal=4, ItemMax=1, WithIds='TRUE', KFs=tla_set(['ident']),
                        Aggs=tla_set(['First', 'Count']), VFs=tla_set(['ident']), LimitNs='{99, 2}')),
-        ('nested', consts(MaxKeyLevels=1, MaxItems=3, MaxTotal=4, ItemMax=1, MaxEvals=3, MaxDepth=3,
+        ('nested', consts(MaxKeyLevels=1, MaxItems=3, MaxTotal=4, ItemMax=1, MaxEvals=3, MaxDepth=2,
                           KFs=tla_set(['mod2']), Aggs=tla_set(['First', 'Max', 'Avg', 'Merge']),
                           VFs=tla_set(['ident']), LimitNs='{99}')),
     ],
@@ -734,6 +824,10 @@ SMALL_ORD = consts(MaxKeyLevels=1, MaxItems=2, MaxTotal=2, ItemKind='"str"', KFs
                    Aggs=tla_set(['Max', 'Min']), VFs=tla_set(['ident']), LimitNs='{99}')
 SMALL_CONS = consts(MaxKeyLevels=1, MaxItems=3, MaxTotal=3, ItemMax=1, KFs=tla_set(['mod2']), Aggs=tla_set(['Max']),
                     VFs=tla_set(['ident', 'list2']), LimitNs='{99}', NestedLimitNs='{99, 1}', SampleNs='{2}')
+SMALL_LAZY = consts(MaxKeyLevels=0, MaxItems=3, MaxTotal=3, ItemMax=1, Aggs=tla_set(['First']), VFs=tla_set(['ident']),
+                    LimitNs='{99, 1}', WithFaults='TRUE')
+SMALL_HOSTILE = consts(MaxKeyLevels=0, MaxItems=2, MaxTotal=2, ItemKind='"hostile"', Aggs=tla_set(['Count']),
+                       VFs=tla_set(['ident']), LimitNs='{99}')
 SMALL_NESTED = consts(MaxKeyLevels=1, MaxItems=2, MaxTotal=3, ItemMax=1, MaxEvals=2, MaxDepth=2, KFs=tla_set(['mod2']),
                       Aggs=tla_set(['Max', 'Avg', 'Sum']), VFs=tla_set(['ident']), LimitNs='{99, 1}')
 
@@ -759,7 +853,8 @@ def model_level_jobs(tier):
     muts = [('carry', SMALL_NESTED), ('avgint', SMALL_NESTED), ('curagg', SMALL_INNER), ('minnum', SMALL_ORD)] \
         if tier == 'quick' else \
         [('carry', SMALL_NESTED), ('avgint', SMALL), ('limit1', SMALL), ('firstlast', SMALL), ('curagg', SMALL_INNER),
-         ('minnum', SMALL_ORD), ('sampledrop', SMALL_CONS), ('list2swap', SMALL_CONS), ('limit1', SMALL_CONS)]
+         ('minnum', SMALL_ORD), ('sampledrop', SMALL_CONS), ('list2swap', SMALL_CONS), ('limit1', SMALL_CONS),
+         ('eager', SMALL_LAZY), ('eqskip', SMALL_HOSTILE)]
     for m, universe in muts:
         runs.append(dict(label='mutant %s rejected' % m, module='MC_C16', cfg='MC_C16',
                          constants=dict(universe, Mutant='"%s"' % m), expect='any', workers=2, heap='2g'))
@@ -824,7 +919,11 @@ def main(tier, seed):
         'key / value functions come from a fixed library (T, T % 2, t // 2, constant, two SKIP-producing; T, T + 1, '
         'T * 10, SKIP-producing; Sum / Flatten / Merge may take a sub-spec that is itself a Group, over items [t, t + 10]); '
         'items are small ints (negative ones included) or id() of dict / list spec nodes; Avg compared as exact rational',
-        'Sample (random) and Limit below the top level are outside the universe; the key-spec objects of different '
+        'whether the loop asks a lazy source for one more item after the value that fills a top-level Limit(n) / First() is not '
+        'constrained (a source failing exactly there is outside the law); objects with a hostile __eq__ are routed only by '
+        't % 2, t // 2 or a constant key',
+        'Sample(n) offered more than n values is random (only checked to be n of them, without key levels); a Limit '
+        'between two key levels is outside the universe; the key-spec objects of different '
         'levels are distinct objects',
         'TLC, the Json community module and the codec are trusted']
     return check.finish(rule='TLC explores every (spec chain, action history) within the constants; every reachable '
